@@ -1043,6 +1043,14 @@ def rule_count(repo: Repo, rep: Report) -> int:
             rep.undecided("COUNT", fi, rs[0], "grouping reshape not recognised", node=rs[0])
             continue
         got = unparse(m["_B"])
+        if isinstance(m["_B"], ast.Name):
+            # a local that names the group size (`bps = self._bits_per_symbol`): its only definition decides
+            ds_ = [s_.value for s_ in ast.walk(fi.node) if isinstance(s_, ast.Assign) and len(s_.targets) == 1 and isinstance(s_.targets[0], ast.Name) and s_.targets[0].id == got]
+            if len(ds_) == 1 and got not in fi.params:
+                got = unparse(ds_[0])
+            elif got not in ("2",):
+                rep.undecided("COUNT", fi, rs[0], f"group size `{got}` is a local with {len(ds_)} definitions", node=rs[0])
+                continue
         if got == bps:
             rep.ok("COUNT", fi, rs[0], f"bits grouped {bps} per symbol along the last axis: symbols = bits / {bps}", node=rs[0])
         else:
@@ -1363,6 +1371,13 @@ def rule_output(repo: Repo, rep: Report) -> int:
                     out.add("bits")
                 if isinstance(x, ast.Call) and (call_name(x) or "").split(".")[-1] in ("argmin", "argmax"):
                     out.add("indices")
+                if isinstance(x, ast.Call) and (attr_chain(x.func) or "").startswith("self.") and (attr_chain(x.func) or "").count(".") == 1:
+                    # a helper method of the class: what it returns is judged from its own body
+                    h_ = ci.find_method(attr_chain(x.func)[5:])
+                    if h_ is not None and "bit_patterns" in unparse(h_.node):
+                        out.add("bits")
+                    elif h_ is not None:
+                        out.add("helper")
                 if isinstance(x, ast.Name) and x.id in nk:
                     out |= nk[x.id]
             return out
